@@ -104,7 +104,7 @@ struct Exec {
 	struct Third { int src; Bytes ip; int user; uint64_t t_last; };
 	std::vector<Third> third;                      // third parties currently logged in (latest login per source)
 	std::map<size_t, size_t> maxf; std::map<size_t, std::set<char>> enc;
-	int n_spoof = 0, n_spoof_badip = 0, n_tun_live = 0, n_tun_dead = 0, n_expiry = 0, n_takeover_checks = 0, n_c2c = 0, n_newlogin = 0, n_raw_sessions = 0;
+	int n_spoof = 0, n_spoof_badip = 0, n_tun_live = 0, n_tun_dead = 0, n_expiry = 0, n_takeover_checks = 0, n_c2c = 0, n_newlogin = 0, n_raw_sessions = 0, n_raw_relogin = 0;
 	std::string sig, why;
 	void fail(const std::string &s, const std::string &w) { if (sig.empty()) { sig = s; why = w; } }
 };
@@ -255,13 +255,13 @@ static void execute(const Plan &P, bool with_spoofs, Exec &X, Tape &t)
 		else if (s.up && s.state != 0) { s.t_last = sim::W.now - 3000; if (s.user >= 0 && s.user < 32) E.slot[s.user].t_active = s.t_last; }
 	};
 	// raw-mode session: a raw ping is answered with a raw ping when the session is accepted, not at all otherwise
-	auto touch_raw = [&](Sess &s, bool expect_reply) {
+	auto touch_raw = [&](Sess &s, bool expect_reply, int reply_cmd = 3) {
 		scn::ScriptClient &sc = E.S(s.src).sc;
 		uint64_t silent = sim::W.now - s.t_last;
 		size_t b0 = sc.inbox.size();
 		sim::W.run_for(3000);
 		bool replied = false;
-		for (size_t q = b0; q < sc.inbox.size(); q++) if (sc.inbox[q].is_raw && sc.inbox[q].dg.data.size() >= 4 && (sc.inbox[q].dg.data[3] >> 4) == 3) replied = true;
+		for (size_t q = b0; q < sc.inbox.size(); q++) if (sc.inbox[q].is_raw && sc.inbox[q].dg.data.size() >= 4 && (sc.inbox[q].dg.data[3] >> 4) == reply_cmd) replied = true;
 		if (silent >= 62000000ull + 3000 && s.state != 0) X.n_expiry++;
 		bool still_mine = s.user >= 0 && s.user < 32 && E.slot[s.user].vack_to.same_ip(sc.addr);
 		if (!expect_reply) {   // a raw data frame is never answered: accepted for sure only while the session is well within its 60 s
@@ -272,7 +272,7 @@ static void execute(const Plan &P, bool with_spoofs, Exec &X, Tape &t)
 		}
 		silent = sim::W.now - 3000 - std::max(s.t_last, s.t_maybe);
 		if (expect_reply && silent >= 62000000ull + 3000 && replied && s.up && still_mine)
-			X.fail("C04:expired-session-accepted", fmt("raw-mode session %d (user %d) was silent for %.1f s and its raw ping was still answered", (int)(&s - &X.ss[0]), s.user, silent / 1e6));
+			X.fail("C04:expired-session-accepted", fmt("raw-mode session %d (user %d) was silent for %.1f s and its raw %s was still answered", (int)(&s - &X.ss[0]), s.user, silent / 1e6, reply_cmd == 1 ? "login (correct response to challenge+1)" : "ping"));
 		if (s.user >= 0 && s.user < 32 && (replied || !expect_reply)) X.maybe_active[s.user] = sim::W.now;
 		if (expect_reply && !replied && silent >= 62000000ull) s.state = 0;
 		else if (replied && s.up && s.state != 0) { s.t_last = sim::W.now - 3000; if (s.user >= 0 && s.user < 32) E.slot[s.user].t_active = s.t_last; }
@@ -294,6 +294,13 @@ static void execute(const Plan &P, bool with_spoofs, Exec &X, Tape &t)
 		if (sim::W.livelock || !X.sig.empty()) break;
 		switch (a.kind) {
 		case A_PING: { Sess &s = X.ss[a.who]; if (!s.up) break;
+			if (s.raw && a.salt % 3 == 0) {
+				// the raw login again, from the session's own address (a client that lost the reply repeats it; so does anybody who recorded it):
+				// accepted like any other message of the session while it is live, and refused -- no reply, nothing revived -- once the
+				// session has been silent for more than 60 s
+				scn::ScriptClient &sc = E.S(s.src).sc; uint8_t hh[16]; ref::login_hash(sc.password, sc.challenge + 1, hh);
+				sc.send_raw(refproto::raw_frame(1, sc.userid, Bytes(hh, hh + 16))); touch_raw(s, true, 1); X.n_raw_relogin++; E.note(fmt("session %d raw login again", a.who)); break;
+			}
 			if (s.raw) { scn::ScriptClient &sc = E.S(s.src).sc; sc.send_raw(refproto::raw_frame(3, sc.userid, Bytes())); touch_raw(s, true); E.note(fmt("session %d raw ping", a.who)); break; }
 			uint16_t id = E.S(s.src).sc.send_ping(); touch(s, id); E.note(fmt("session %d ping", a.who)); break; }
 		case A_DATA: {
@@ -499,6 +506,7 @@ static CaseResult run_case(Tape &t)
 	if (A.n_c2c) r.cls("client-to-client");
 	if (A.n_newlogin) r.cls("third-party-logged-in");
 	if (A.n_raw_sessions) r.cls("raw-mode-session");
+	if (A.n_raw_relogin) r.cls("raw-login-repeated-later");
 	return r;
 }
 
